@@ -225,6 +225,12 @@ impl TopicActor {
         &mut self,
         subscription: Arc<Subscription>,
     ) -> Result<(), AttachSubscriptionError> {
+        // A subscription whose deletion has begun is not attached: its detach request may
+        // have been handled already (finding nothing), and nothing would remove it again.
+        if subscription.is_detach_requested() {
+            return Ok(());
+        }
+
         // Insert the subscription.
         if let Entry::Vacant(entry) = self.subscriptions.entry(subscription.name.clone()) {
             entry.insert(subscription);
